@@ -185,6 +185,15 @@ def rule_token(ctx):
     ctx.ob("C11.HAND", tr, "dispatcher cleanup returns the recorded port to the pool, guarded only by listener presence and pool existence", ok,
            "dispatcher cleanup does not return the session's passive port to the pool (guarded by listener presence and pool existence only)",
            construct="finally:no put-back", function=p.qualname(d))
+    # the session never forgets its listener without giving the recorded port back (the cleanup's give-back is keyed on the listener's presence)
+    for x in ast.walk(p.trees["server.py"]):
+        if isinstance(x, ast.Delete) and any(isinstance(t, ast.Attribute) and t.attr in listener_fields for t in x.targets):
+            owner = p.enclosing_function(x)
+            gives = owner is not None and any(isinstance(c_, ast.Call) and isinstance(c_.func, ast.Attribute) and c_.func.attr == "put_nowait" and last_attr(c_.func.value) == pool
+                                               for c_ in walk_no_nested(owner))
+            ctx.ob("C11.HAND", x, f"{p.fn_of(x)}: forgetting the listener is paired with giving its port back", gives,
+                   f"{p.fn_of(x)} drops the session's passive listener (`{src(x)}`) without returning the recorded port to the pool: the cleanup only gives a port back "
+                   "while the listener field is present, so the port is lost for good", construct=f"{p.fn_of(x)}:listener dropped without put-back")
     # callers store the listener without a suspension point in between
     for h in [m for m in p.methods("Server").values() if any(is_self_call(c, {fn.name}) for c in ast.walk(m)) and m is not fn]:
         stores = []
